@@ -57,7 +57,7 @@ CHECKS = {
             'S the S-marginal of the joint run equals integrating the S-marginal alone (m=0, gamma=0). Every frozen-with-migration placement is '
             'rejected and every other accepted.',
             'One grid for all axes (driver API); the full lattice runs with the delj switch off (a reduced lattice with it on, see below); isolated-marginal clause asserted where all S '
-            'frequencies are interior; quick tier covers a third of the parameter product per frozen pattern on an asymmetric grid (cap reported). Added after the seeded waves: every frozen pattern again with the delj switch on, with Fortran-ordered / strided densities and a strided grid, with sizes that change during the integration (replayed with the per-step rule), and with each migration rate in turn limiting the step.',
+            'frequencies are interior; quick tier covers a third of the parameter product per frozen pattern on an asymmetric grid (cap reported). Added after the seeded waves: every frozen pattern again with the delj switch on, with Fortran-ordered / strided densities and a strided grid, with sizes that change during the integration (replayed with the per-step rule), and with each migration rate in turn limiting the step. Seventh/eighth wave: influx changing in time, grids with interior points within 1e-6 of the ends, remove_pop/filter_pops equal the trapezoid marginal.',
             'DESIGN.md §3 C04'),
     'C05': ('model_checking',
             'operator extraction on every unit density for each sampling path x sample sizes x grids, against exact Fraction integrals of binomial probabilities times piecewise-linear basis functions and exact trapezoid sums',
@@ -88,7 +88,7 @@ CHECKS = {
             'is executed on the real make_extrap_func and compared with the exact rational Lagrange value; linearity in y makes the monomial '
             'basis decide all polynomial dependences of that shape.',
             'Trusts CPython Fractions and the reading of "exact for polynomial dependence" as Lagrange extrapolation to x=0; grid sizes are '
-            'taken from {40..100}; quick tier thins k=6 orderings to 122/720 (reported as a cap), thorough enumerates all.',
+            'taken from {40..100}; quick tier thins k=6 orderings to 122/720 (reported as a cap), thorough enumerates all. Seventh/eighth wave: sign changes and the wrapper threshold in the fallback lattice; x values of order 1e-9; memoising models over call sequences.',
             'DESIGN.md §3 C07'),
     'C08': ('model_checking',
             'exhaustive enumeration of all (n,m,h,j) weights and operator extraction on unit spectra / singleton masks + explicit-state BFS over project/fold/unfold, against integer-binomial reference',
@@ -105,7 +105,7 @@ CHECKS = {
             'the bounded family, including odd/even totals; every arithmetic operator (binary, reflected, in-place) is run against every '
             'operand kind and folding combination; fold.unfold.fold, mirror invariance and likelihood auto-folding are checked on every member.',
             "Follows dadi's convention that corners are always masked (fold/unfold re-mask them); quick tier restricts 4-D/5-D shapes to "
-            'non-decreasing size tuples; mirrored folded spectra are followed for data only.',
+            'non-decreasing size tuples; mirrored folded spectra are followed for data only. Seventh/eighth wave: spectra with unmasked corners through log/copy/ll/fold; unfolding folded spectra not produced by fold() (asymmetric ambiguous pairs, each entry masked in turn).',
             'DESIGN.md §3 C09'),
     'C10': ('model_checking',
             'operator extraction on unit spectra x every subset / permutation / merge set (+orderings) of populations + BFS with project/fold for commutation, against explicit Fraction re-indexing',
@@ -135,7 +135,7 @@ CHECKS = {
             'checked on all fixed-subsets for k<=5, perturb_params on a bounds lattice (negative, zero, None) with the uniform draw replaced by '
             'every extreme answer.',
             '1e-12 relative slack on bounds for log-space and NLopt optimisers (1-ulp excursions from exp(log(b)) / internal rescaling); NLopt '
-            'RoundoffLimited is reported as documented (-inf, nan) and counted; small iteration budgets; quick tier k<=3. Added after the seeded waves: fixed values that change between runs of one process; start vectors as arrays and lists (untouched afterwards); parameters exactly on a bound.',
+            'RoundoffLimited is reported as documented (-inf, nan) and counted; small iteration budgets; quick tier k<=3. Added after the seeded waves: fixed values that change between runs of one process; start vectors as arrays and lists (untouched afterwards); parameters exactly on a bound. Seventh/eighth wave: parameters fixed at exactly 0; bound lists on one side only for every optimiser family.',
             'DESIGN.md §3 C12'),
     'C13': ('model_checking',
             'exhaustive enumeration of every single-SNP configuration (genotype vectors x ancestral-allele / FILTER / allele forms) through the real VCF and SNP-table parsers, of every answer of the subsampling and bootstrap random draws (environment enumeration), of every chunk size, and of every spectrum with <=3 SNPs, against an independent counter over the genotype matrix',
@@ -146,7 +146,7 @@ CHECKS = {
             'size (partition, one window per chunk, chunk spectra sum to the whole). S, pi, theta_W, Tajima D, theta_L are compared with brute '
             'force on haplotype matrices and Fst with Weir-Cockerham from allele counts, for every spectrum with <=3 (Fst: 2) SNPs.',
             'DP/AD-based call exclusion is outside the enumerated space (not defined by the property); the format lattice is crossed with a '
-            'covering subset of genotype vectors, the plain format with all of them.',
+            'covering subset of genotype vectors, the plain format with all of them. Seventh/eighth wave: unlisted VCF samples in any column; depth formats (GT:DP, GT:AD, both orders) with zero-depth genotypes; half calls.',
             'DESIGN.md §3 C13'),
     'C14': ('model_checking',
             'exhaustive enumeration of a format lattice (shape x position x value alphabet x precision x gz; masks x labels x comments x format flags x folding; memory layouts; pickle protocols) with real write+read round trips',
@@ -182,7 +182,7 @@ CHECKS = {
             'Agreement is required to 1e-8; where two computations legitimately differ by operator splitting or time-step choice (front end '
             'holding demes in another internal order; frozen branches of nominal size 1/Ne) the error must be below 2e-3 and shrink with the '
             'time step (counted in evidence). Export with Nref=None normalises rates by design and is not compared. One known finding '
-            '(export of zero-length demes). Added after the seeded waves: one size-function epoch cut into 3-4 pieces by other demes\' events; migration windows; repeatable export. Coincident events on one deme are excluded (not orderable by a graph); programs with frozen populations may agree only on a grid ladder.',
+            '(export of zero-length demes). Added after the seeded waves: one size-function epoch cut into 3-4 pieces by other demes\' events; migration windows; repeatable export. Coincident events on one deme are excluded (not orderable by a graph); programs with frozen populations may agree only on a grid ladder. Seventh/eighth wave: non-commuting pulses at one instant; 4->5 admixture with every fraction pattern; all samples ancient at two times; caller lists compared after every front-end call.',
             'DESIGN.md §3 C16'),
     'C17': ('model_checking',
             'stateless exploration of all thread interleavings of the real cache builder under a controlled scheduler (fake multiprocessing; stateful symmetry-reduced DFS cross-checked by preemption-bounded unpruned DFS), exhaustive fault subsets and merge multisets, plus a quadrature lattice against an independently coded reference',
@@ -211,7 +211,7 @@ CHECKS = {
             'model spectrum for 1-3 populations x coverage x F x sim_threshold: totals never exceed the model, entries are non-negative, and at '
             'depth 80 the result equals the plain projection.',
             'The Monte-Carlo branch is run with owned seeds and only draw-independent properties are asserted; coverage distributions with no '
-            'reads at all are excluded (nothing can be called). Added after the seeded waves: the random source of the subsampling step replaced by an enumerated answer list (every joint outcome reachable); simulated regime with deep coverage (support containment, 1-3 populations); wrapper histories across coverage distributions.',
+            'reads at all are excluded (nothing can be called). Added after the seeded waves: the random source of the subsampling step replaced by an enumerated answer list (every joint outcome reachable); simulated regime with deep coverage (support containment, 1-3 populations); wrapper histories across coverage distributions. Seventh/eighth wave: F=1e-8; simulated regime after another coverage distribution; persistent model spectra; the simulated regime made deterministic (deep coverage, every fixed shuffle) and compared with the exact partition law.',
             'DESIGN.md §3 C18'),
     'C19': ('model_checking',
             'exhaustive monomial basis x parameter-regime lattice x step sizes against exact derivatives; closed-form information matrices on an eps ladder; all bootstrap permutations; explicit-state enumeration of all call sequences over the shared cache up to a depth bound',
@@ -235,7 +235,7 @@ CHECKS = {
             'lists, dicts) and results must not alias inputs. Every array argument is also passed as Fortran, transposed, strided, reversed and '
             'read-only memory. Fresh values and all length-2 sequences are recomputed under 4-5 PYTHONHASHSEED values in new interpreters.',
             'A finite set of hash seeds stands for "all seeds"; a crash of the evaluating process (e.g. heap corruption) is reported as a violation; '
-            'the state cap, when hit, is reported in evidence with what was fully covered. Added after the seeded waves: zero-length epochs for every integrator, equal-individuals/different-ploidy pairs, one-corner-masked spectra, ancient samples with caller-owned lists, None bounds, list-or-array parameter vectors.',
+            'the state cap, when hit, is reported in evidence with what was fully covered. Added after the seeded waves: zero-length epochs for every integrator, equal-individuals/different-ploidy pairs, one-corner-masked spectra, ancient samples with caller-owned lists, None bounds, list-or-array parameter vectors. Seventh/eighth wave: 20 more symbols (pulse functions of every dimension, corner masking on views, export record, coverage order, scalar arithmetic); mask buffers in the aliasing test; repeated read-only calls.',
             'DESIGN.md §3 C20'),
 }
 
